@@ -1,8 +1,8 @@
 (* Model of the derived (read-only) node queries of BaseNode:
-     bigtree/node/basenode.py:409-571  ancestors, descendants, leaves, siblings, left_sibling,
+     bigtree/node/basenode.py:409-573  ancestors, descendants, leaves, siblings, left_sibling,
                                        right_sibling, node_path, is_root, is_leaf, root, diameter,
                                        depth, max_depth
-     bigtree/node/basenode.py:657-709  go_to
+     bigtree/node/basenode.py:659-711  go_to
      bigtree/node/binarynode.py:378-385 BinaryNode.is_leaf
    A node object is (the whole tree it lives in, its position): `node.parent` drops the last child
    index, `node.children` appends one.  Upward queries walk `parent` (recursion on explicit fuel, as
@@ -65,7 +65,7 @@ Fixpoint node_path_f (fuel : nat) (p : pos) : list pos :=
   end.
 Definition node_path (p : pos) : list pos := node_path_f (S (length p)) p.
 
-(* basenode.py:552-561   if self.parent is None: return 1; return self.parent.depth + 1 *)
+(* basenode.py:554-563   if self.parent is None: return 1; return self.parent.depth + 1 *)
 Fixpoint depth_f (fuel : nat) (p : pos) : nat :=
   match fuel with
   | 0 => 1
@@ -137,7 +137,7 @@ Definition node_descendants (t : tree) (p : pos) : list pos :=
 Definition node_leaves (t : tree) (p : pos) : list pos :=
   preorder_iter t p (fun n => sub_is_leaf (snd n)).
 
-(* basenode.py:563-571   max([self.root.depth] + [node.depth for node in list(self.root.descendants)])
+(* basenode.py:565-573   max([self.root.depth] + [node.depth for node in list(self.root.descendants)])
    NB computed from the root of the whole tree, whatever node it is asked of *)
 Definition node_max_depth (t : tree) (p : pos) : nat :=
   let r := node_root p in
@@ -152,10 +152,11 @@ Fixpoint insert_desc (x : nat) (l : list nat) : list nat :=
 Definition sort_desc (l : list nat) : list nat := fold_right insert_desc [] l.
 Definition nlargest (n : nat) (l : list nat) : list nat := firstn n (sort_desc l).
 
-(* basenode.py:523-550   _recursive_diameter(node) with the `nonlocal diameter` accumulator threaded
+(* basenode.py:523-553   _recursive_diameter(node) with the `nonlocal diameter` accumulator threaded
    through: returns (the value returned, the accumulator afterwards)
        if node.is_leaf: return 1
-       child_length = [_recursive_diameter(child) for child in node.children]
+       child_length = [_recursive_diameter(child) for child in node.children if child]
+         (`if child` only drops the empty slots of a BinaryNode; a BaseNode's children are all nodes)
        diameter = max(diameter, sum(heapq.nlargest(2, child_length)))
        return 1 + max(child_length) *)
 Fixpoint recursive_diameter (node : tree) (diameter : nat) : nat * nat :=
@@ -201,7 +202,7 @@ Fixpoint min_pair (l : list (nat * pos)) : option (nat * pos) :=
               end
   end.
 
-(* basenode.py:690-709
+(* basenode.py:692-711
      if not isinstance(node, BaseNode): raise TypeError
      if self.root != node.root: raise TreeError
      if self == node: return [self]
@@ -249,32 +250,28 @@ Definition bt_tag (b : btree) : nat := match b with BT g _ _ => g end.
 Definition bt_children (b : btree) : list (option btree) := match b with BT _ l r => [l; r] end.
 Definition bt_is_leaf (b : btree) : bool := binary_is_leaf (bt_children b).
 
-(* basenode.py:538-546 on a BinaryNode: `for child in node.children` also visits the empty slots,
-   and _recursive_diameter(None) fails at `node.is_leaf` with AttributeError *)
-Fixpoint bt_recursive_diameter (node : btree) (diameter : nat) : res (nat * nat) :=
+(* basenode.py:534-550 on a BinaryNode (as repaired by 8c12410):
+       if node.is_leaf: return 1                                   (the binary-aware is_leaf)
+       child_length = [_recursive_diameter(child) for child in node.children if child]   (empty slots skipped)
+       diameter = max(diameter, sum(heapq.nlargest(2, child_length)))
+       return 1 + max(child_length)                (child_length is not empty: the node is not a leaf) *)
+Fixpoint bt_recursive_diameter (node : btree) (diameter : nat) : nat * nat :=
   match node with
   | BT _ l r =>
-      if binary_is_leaf [l; r] then Ret (1, diameter) else
-      let call (c : option btree) (d : nat) : res (nat * nat) :=
-        match c with None => Raise AttributeError | Some b => bt_recursive_diameter b d end in
-      match call l diameter with
-      | Raise e => Raise e
-      | Ret (x, d1) =>
-          match call r d1 with
-          | Raise e => Raise e
-          | Ret (y, d2) =>
-              let child_length := [x; y] in
-              Ret (1 + list_max child_length, Nat.max d2 (list_sum (nlargest 2 child_length)))
-          end
-      end
+      if binary_is_leaf [l; r] then (1, diameter) else
+      let call (c : option btree) (d : nat) : list nat * nat :=
+        match c with
+        | None => ([], d)
+        | Some b => let '(x, d1) := bt_recursive_diameter b d in ([x], d1)
+        end in
+      let '(xs, d1) := call l diameter in
+      let '(ys, d2) := call r d1 in
+      let child_length := xs ++ ys in
+      (1 + list_max child_length, Nat.max d2 (list_sum (nlargest 2 child_length)))
   end.
 
-Definition bt_diameter (b : btree) : res nat :=
-  if bt_is_leaf b then Ret 0 else
-  match bt_recursive_diameter b 0 with
-  | Ret (_, d) => Ret d
-  | Raise e => Raise e
-  end.
+Definition bt_diameter (b : btree) : nat :=
+  if bt_is_leaf b then 0 else snd (bt_recursive_diameter b 0).
 
 (* the node with tag g, and the node one of whose slots holds it *)
 Fixpoint bt_find (b : btree) (g : nat) : option btree :=
@@ -301,7 +298,8 @@ Fixpoint bt_parent_of (b : btree) (g : nat) : option btree :=
   end.
 
 (* basenode.py:443-452 on a BinaryNode: tuple(child for child in self.parent.children if child is not self)
-   — an empty slot (None) "is not self" and is kept *)
+   — the other entry of the parent's pair of slots; an empty slot (None) "is not self" and is kept
+   (tests/node/test_binarynode.py pins `(None,)` for an only child) *)
 Definition bt_siblings (root : btree) (g : nat) : list (option nat) :=
   match bt_parent_of root g with
   | None => []
